@@ -164,6 +164,11 @@ def run(ctx, prop, shapes=None, strategies=('default',), focus=None):
         for k, v in r['stats']['nontrivial'].items():
             nontrivial[k] = nontrivial.get(k, 0) + v
         for category, what, trace in r['found']:
+            if r['strategy'] == 'lazy' and category == 'keys' and 'pony -> ok' in what and 'CacheIndexError' in what:
+                # with every attribute lazy, loading a row does not put its unique value into the identity map's index, so a
+                # conflicting assignment is accepted and found at flush time: allowed error timing (C14), not a disagreement
+                agg['lazy_key_timing'] = agg.get('lazy_key_timing', 0) + 1
+                continue
             owner = session.CATEGORIES.get(category)
             how = trace[0].get('probe') if trace and isinstance(trace[0], dict) else None
             if prop == 'C23' and category in ('read', 'ends', 'identity', 'commit', 'failure') and \
